@@ -31,7 +31,9 @@ D1 == {EBin(o, l, r) : o \in Ops \ {"**"}, l \in Leaves, r \in Leaves} \cup {EBi
 \* compound positions: the target is a variable, a list element or a field (each target form is desugared by its own code)
 Positions == {"let-int", "let-float", "let-bool", "return-int", "return-float", "arg-int", "arg-float",
               "compound-int", "compound-float", "compound-elem-int", "compound-elem-float", "compound-field-int", "compound-field-float",
-              "const-int", "const-float"}
+              "const-int", "const-float",
+              \* constfwd: the const is referenced by a const declared BEFORE it (so it is evaluated on demand, out of file order)
+              "constfwd-int", "constfwd-float"}
 CompoundPos == {"compound-int", "compound-float", "compound-elem-int", "compound-elem-float", "compound-field-int", "compound-field-float"}
 CONSTANT Depth
 \* cop: the operator of the compound assignment `m <cop>= e` (compound positions; "+" elsewhere)
@@ -45,8 +47,8 @@ Next == /\ dep < Depth /\ dep' = dep + 1 /\ UNCHANGED <<pos, cop>>
            \/ \E x \in {EInt(2), EId("n")} : e' = EBin("**", WrapL("**", e), x)
         /\ Ty(e') # "err"
 
-Declared == CASE pos \in {"let-int", "return-int", "arg-int", "compound-int", "compound-elem-int", "compound-field-int", "const-int"} -> "int"
-              [] pos \in {"let-float", "return-float", "arg-float", "compound-float", "compound-elem-float", "compound-field-float", "const-float"} -> "float"
+Declared == CASE pos \in {"let-int", "return-int", "arg-int", "compound-int", "compound-elem-int", "compound-field-int", "const-int", "constfwd-int"} -> "int"
+              [] pos \in {"let-float", "return-float", "arg-float", "compound-float", "compound-elem-float", "compound-field-float", "const-float", "constfwd-float"} -> "float"
               [] OTHER -> "bool"
 \* compound position: `m <cop>= e` with m of the declared kind is `m = m <cop> e`: the result kind of the table must be
 \* the kind of m (so `m /= e` is rejected for every int m); all other positions: declared type must equal the expression's
@@ -60,7 +62,7 @@ UsesVar(x) == CASE x.k = "ident" -> TRUE [] x.k = "lit" -> FALSE [] x.k \in {"pa
 \* const positions only take literal-only expressions without parentheses
 RECURSIVE HasParen(_)
 HasParen(x) == CASE x.k = "paren" -> TRUE [] x.k = "un" -> HasParen(x.e) [] x.k = "bin" -> HasParen(x.l) \/ HasParen(x.r) [] OTHER -> FALSE
-PosOK == (pos \in {"const-int", "const-float"}) => (~UsesVar(e) /\ ~HasParen(e))
+PosOK == (pos \in {"const-int", "const-float", "constfwd-int", "constfwd-float"}) => (~UsesVar(e) /\ ~HasParen(e))
 Root == IF e.k = "bin" THEN [op |-> e.op, l |-> Ty(e.l), r |-> Ty(e.r), ek |-> IF e.op = "**" THEN ExpKind(e.r, Ty(e.r)) ELSE "none"]
         ELSE [op |-> "", l |-> "", r |-> "", ek |-> "none"]
 \* value of e for a = 7, n = 2, u = 2.5 (absent when outside the exact model, e.g. float powers)
